@@ -547,8 +547,8 @@ pub fn gen_endpoint(rng: &mut Rng, prof: Profile, id: usize) -> Vec<String> {
                     let body = if opc == 1 { utf8_text(rng) } else { payload(rng, n.min(125)) };
                     format!("op write frame {bits} {opc} {key} {} {m}", hex(&body))
                 }
-                0..=3 => format!("op write binary {} {m}", hex(&payload(rng, n))),
-                4..=6 => format!("op write text {} {m}", hex(&utf8_text(rng))),
+                0..=3 => format!("op {} binary {} {m}", if rng.chance(1, 5) { "send" } else { "write" }, hex(&payload(rng, n))),
+                4..=6 => format!("op {} text {} {m}", if rng.chance(1, 5) { "send" } else { "write" }, hex(&utf8_text(rng))),
                 7 | 8 => {
                     let n = *rng.pick(&[0usize, 1, 125]);
                     format!("op write ping {} {m}", hex(&payload(rng, n)))
